@@ -1,15 +1,20 @@
 import SE.Spec.Mapping
 /-
-Statement vocabulary for C11: the reference names a template mentions (as `expandSpec` scans it; and
-`regexp.Expand` too when no name is directly followed by a byte ≥ 0x80, `refsAsciiFollowed`), and the decidable guard `SafeTemplate` under which the glob formatter
-(with the repaired reference regex `\$\{?([a-zA-Z0-9_]+)\}?`, and — since the repair b74fba2 — `%` escaped and all
-references substituted in one left-to-right pass) provably agrees with `expandSpec`.
+Statement vocabulary for C11: the reference names a template mentions, as the left-to-right scan of
+`expandSpec` / `regexp.Expand` (`rxExpand`) / the glob formatter (`substRefs`) meets them — all three
+use the same scan since the repair a7bcc3e — and `hasDollarDollar`, which the driver's classification
+of templates uses.
+
+(The decidable guard `SafeTemplate` that used to live here, with its segment vocabulary, is gone:
+since a7bcc3e the glob formatter has `regexp.Expand`'s reference syntax and C11 is proved for every
+template, SE/Props/C11.lean.)
 -/
 namespace SE
 
 /-- the names of the references met by the left-to-right scan of `expandSpec` (same recursion, same
-    fuel; ASCII names). `rxExpand` — Go's rune-wise name scan — meets the same names exactly when
-    `refsAsciiFollowed` below holds. -/
+    fuel, the same rune-aware name syntax `rxExtractU`; the scan — and the list — ends where a name
+    contains a rune outside the modelled Unicode fragment: nothing is specified from there on).
+    Used to say "the template does not mention `$0`" and "no reference names a named group". -/
 def refNames : Nat → Bytes → List Bytes
   | 0, _ => []
   | _, [] => []
@@ -18,122 +23,16 @@ def refNames : Nat → Bytes → List Bytes
       match rest with
       | c :: rest' =>
         if c == cDollar then refNames fuel rest'
-        else match rxExtract rest with
-          | none => refNames fuel rest
-          | some (name, r) => name :: refNames fuel r
+        else match rxExtractU rest with
+          | none => []
+          | some none => refNames fuel rest
+          | some (some (name, r)) => name :: refNames fuel r
       | [] => []
     else refNames fuel rest
 
-/-- a template cut into literal pieces and references `$name` / `${name}` -/
-inductive Seg where
-  | lit (l : Bytes)
-  | ref (braced : Bool) (ds : Bytes)
-  deriving DecidableEq, Repr
-
-def refText (braced : Bool) (ds : Bytes) : Bytes :=
-  if braced then cDollar :: cLBrace :: (ds ++ [cRBrace]) else cDollar :: ds
-
-def Seg.text : Seg → Bytes
-  | .lit l => l
-  | .ref b ds => refText b ds
-
-def flatSegs : List Seg → Bytes
-  | [] => []
-  | s :: segs => s.text ++ flatSegs segs
-
-/-- what may follow a reference: after a braced one anything; after a bare `$ds` either the end of
-    the template or an ASCII byte (`< 0x80`) outside `[a-zA-Z0-9_}]` — in particular `$`, the start of
-    the next reference (a word byte would not be "following" but part of the name; a `}` would be
-    swallowed by the formatter's regex; a byte ≥ 0x80 may start a Unicode letter, which Go's
-    `regexp.Expand` — scanning names rune by rune — takes into the name: `$1é`) -/
-def followOk : List Seg → Bool
-  | [] => true
-  | .lit _ :: segs => followOk segs
-  | .ref true _ :: segs => followOk segs
-  | .ref false _ :: segs =>
-    (match flatSegs segs with
-     | [] => true
-     | c :: _ => !isWordByte c && c != cRBrace && c < 0x80) && followOk segs
-
-/-- per-segment conditions: a literal contains no `$` (it may contain `%`, and any other byte: since
-    the repair b74fba2 the formatter escapes `%` before it builds its format string); a reference
-    name is a non-empty run of `[A-Za-z0-9_]` that is either a decimal number as `regexp.Expand`
-    reads it (no leading zero unless the number is `0`, at most 8 digits) or not purely numeric
-    (then it names no capture and expands to nothing: `$foo`, `$1_total`) -/
-def segOk : Seg → Bool
-  | .lit l => !l.contains cDollar
-  | .ref _ ds => !ds.isEmpty && ds.all isWordByte && ((rxNum ds).isSome || !ds.all isDigitB)
-
-/-- every segment is fine and what follows a bare reference is fine. (Before the repair b74fba2
-    there was a third conjunct, "no reference text is a proper prefix of another one": the
-    references were substituted one after the other with `strings.ReplaceAll`. They are now
-    substituted in a single pass, and `$1` and `$11` may occur together.) -/
-def SafeSegs (segs : List Seg) : Bool :=
-  segs.all segOk && followOk segs
-
-/-- a (not verified, and not needing verification) tokenizer: `SafeTemplate` checks its output -/
-def segsOf : Nat → Bytes → Bytes → List Seg
-  | 0, acc, t => [.lit (acc.reverse ++ t)]
-  | _, acc, [] => [.lit acc.reverse]
-  | fuel + 1, acc, b :: rest =>
-    if b == cDollar then
-      match rxExtract rest with
-      | some (name, r) =>
-        .lit acc.reverse :: .ref (rest.head? == some cLBrace) name :: segsOf fuel [] r
-      | none => segsOf fuel (b :: acc) rest
-    else segsOf fuel (b :: acc) rest
-
-/-- **The guard of the partial C11 theorem** (decidable: a `Bool`). A template is safe when it
-    reads as literals and references such that
-    * no literal contains `$` (so every `$` starts a reference, and there is no `$$`); a literal may
-      contain `%` — `100%-$1`, `50%s-$1`, `%d$2%%$1` are safe,
-    * every reference is `$name` or `${name}`, `name` a non-empty run of `[A-Za-z0-9_]` that is
-      either a decimal number without leading zero of ≤ 8 digits, or not purely numeric,
-    * a bare `$name` is followed by the end of the template or by an ASCII byte (`< 0x80`) outside
-      `[a-zA-Z0-9_}]` (so no `}` follows directly; another reference may: `$1$2`, `$1${2}`; a
-      non-ASCII byte may not: `$1é`, where the regex side's `regexp.Expand` reads the name `1é` —
-      literals may contain non-ASCII bytes anywhere else: `é$1-x`, `${1}é`).
-    Nothing is asked about how the reference texts relate to each other: `$1-$11` is safe.
-    All three defects of the formatter found with this property are repaired — adjacent references
-    (`$1$2`, 4d631d3), a literal `%` and a reference text that is a prefix of another one (`100%-$1`,
-    `$1-$11`, b74fba2) — and such templates are accepted. What the guard still excludes are the
-    corners in which the formatter's reference syntax differs from the documented one: `$$`, `$01`,
-    `${1`, `$1}`, and (for the regex side) `$1é`. -/
-def SafeTemplate (tmpl : Bytes) : Bool :=
-  let segs := segsOf tmpl.length [] tmpl
-  flatSegs segs == tmpl && SafeSegs segs
-
-/-- the byte after the ASCII name run of `s` (the text after a `$`; an optional `{` is skipped first)
-    is absent or ASCII (`< 0x80`). Then Go's rune-wise name scan (`rxExtractU`) stops exactly where
-    the ASCII scan of the specification (`rxExtract`) does. -/
-def asciiAfterName (s : Bytes) : Bool :=
-  let s1 := match s with
-    | b :: r => if b == cLBrace then r else s
-    | [] => []
-  match s1.dropWhile isWordByte with
-  | [] => true
-  | c :: _ => c < 0x80
-
-/-- `asciiAfterName` at every `$` the left-to-right scan of `rxExpand` / `expandSpec` examines (same
-    recursion and fuel as `refNames`; it is also asked where the ASCII scan finds no name: `$é` is a
-    reference for `regexp.Expand`). **The guard of the regex-side C11 theorem**: no reference name —
-    bare or braced — and no lone `$` is directly followed by a byte ≥ 0x80. -/
-def refsAsciiFollowed : Nat → Bytes → Bool
-  | 0, _ => true
-  | _, [] => true
-  | fuel + 1, b :: rest =>
-    if b == cDollar then
-      match rest with
-      | c :: rest' =>
-        if c == cDollar then refsAsciiFollowed fuel rest'
-        else asciiAfterName rest && (match rxExtract rest with
-          | none => refsAsciiFollowed fuel rest
-          | some (_, r) => refsAsciiFollowed fuel r)
-      | [] => true
-    else refsAsciiFollowed fuel rest
-
-/-- the template contains two adjacent `$` (for `regexp.Expand` and `expandSpec` the escape `$$`;
-    the formatter's regex sees no reference in it and copies both) -/
+/-- the template contains two adjacent `$` (for `regexp.Expand`, `expandSpec` and — since a7bcc3e —
+    the glob formatter the escape `$$`; before that repair the formatter's regex saw no reference in it
+    and copied both). Used by the driver's classification of divergences. -/
 def hasDollarDollar : Bytes → Bool
   | a :: b :: r => (a == cDollar && b == cDollar) || hasDollarDollar (b :: r)
   | _ => false
